@@ -435,7 +435,7 @@ class span
 public:
 	typedef T* iterator;
 	
-	inline span(T *a, long len) : _base(len < 0 ? 0 : a), _len(len * sizeof(T))
+	inline span(T *a, long len) : _base(len < 0 ? 0 : a), _len(len < 0 ? 0 : len * sizeof(T))
 	{ }
 	inline span() : _base(0), _len(0)
 	{ }
